@@ -357,6 +357,8 @@ def fmt(e, depth=0):
         return "cbarg%d<%s>" % (e[2], e[1].split("::", 1)[-1])
     if k == "phi":
         return "phi(_%s)" % e[2]
+    if k == "var":
+        return "var(%s)" % e[3]
     if k == "load":
         return "load(%s)" % fmt(e[1], depth + 1)
     if k == "discr":
@@ -800,6 +802,7 @@ class Super:
             return d
         d = defaultdict(list)
         partial = set()
+        mutb = set()
         for bi, b in enumerate(fn.blocks):
             for si, s in enumerate(b["stmts"]):
                 if s["k"] == "assign":
@@ -807,12 +810,16 @@ class Super:
                         d[s["place"]["l"]].append(("stmt", bi, si))
                     else:
                         partial.add(s["place"]["l"])
+                    rv = s["rv"]
+                    if rv["k"] in ("ref", "rawptr") and rv.get("mut") and "*" not in rv["place"]["p"]:
+                        mutb.add(rv["place"]["l"])
             t = b["term"]
             if t["k"] == "call":
                 if not t["dest"]["p"]:
                     d[t["dest"]["l"]].append(("call", bi))
                 else:
                     partial.add(t["dest"]["l"])
+        fn._mutborrowed = mutb
         fn._defs = d
         fn._partial = partial
         return d
@@ -837,6 +844,10 @@ class Super:
             if l in ctx.bind:
                 return ctx.bind[l]
             return ("param", fn.local_name(l), l)
+        if len(defs) == 1 and l in fn._mutborrowed and fn.locals[l]["ty"] in ("usize", "u32", "u64", "bool", "i32", "isize", "u16", "u8"):
+            # a scalar that is handed out by `&mut` (e.g. a counter updated inside a closure): its single visible
+            # definition is only the initial value
+            return ("var", ctx.id, l, fn.local_name(l))
         if len(defs) == 1:
             d = defs[0]
             if d[0] == "stmt":
